@@ -26,21 +26,19 @@ Proof. exact walker_sound. Qed.
 Theorem C12_walker_exact : forall p, in_domain p = true -> project_events p = map ev_of (project_sites p).
 Proof. exact walker_exact. Qed.
 
-(* The function identifier is a legal, non-reserved TypeScript identifier for every event name
-   over [A-Za-z0-9_-] (the empty name included). *)
-Theorem C12_listener_ident_legal : forall n, forallb safe_char n = true -> is_legal_binding_name (listener_name n) = true.
+(* The function identifier is a legal, non-reserved TypeScript identifier for EVERY event name
+   (since C12-fix-dedup-and-identifier: every non-alphanumeric character becomes '_' first). *)
+Theorem C12_listener_ident_legal : forall n, is_legal_binding_name (listener_name n) = true.
 Proof. exact listener_name_legal. Qed.
 
-(* Main theorem on the complement of the naming classes, for every event list: one listener per
-   name, subscribed to exactly that name, legal and pairwise distinct identifiers. *)
+(* For every event list outside the one remaining naming class (two distinct names with one
+   identifier): one listener per distinct name however often it is emitted (the first emit wins),
+   subscribed to exactly that name, legal and pairwise distinct identifiers. *)
 Theorem C12_listener_records_partial : forall (l : evs),
   let names := map fst l in
-  (forall n, In n names -> forallb name_char n = true) ->
-  (forall n, In n names -> kf_dup_name names n = false) ->
-  (forall n, In n names -> kf_ident_chars n = false) ->
   (forall n, In n names -> kf_collision names n = false) ->
   let ls := model_listeners l in
-  map ml_event ls = names /\ NoDup (map ml_event ls) /\
+  map ml_event ls = first_names names /\ NoDup (map ml_event ls) /\
   (forall n, In n names -> exists x, In x ls /\ ml_event x = n /\ forall y, In y ls -> ml_event y = n -> y = x) /\
   (forall x, In x ls -> is_legal_binding_name (ml_ident x) = true) /\
   NoDup (map ml_ident ls).
@@ -61,19 +59,16 @@ Theorem C12_payload_site : forall s, kf_payload s = false -> degenerate (pcore s
 Proof. exact payload_site. Qed.
 
 (* Main theorem, project level, on the complement of the classes: for every in-domain project whose
-   documented names lie outside the naming classes, the listeners generated from the walker's
+   documented names lie outside the naming class kf_collision, the listeners generated from the walker's
    events are in bijection with the documented names, each subscribed to exactly its name, under
    legal pairwise distinct identifiers; every event stems from a documented site and, outside the
    payload classes, has the payload string of the site's evident type. (Partial: stated on the
    listener records the template is applied to, not on the parsed text of events.ts.) *)
 Theorem C12_listeners_partial : forall p, in_domain p = true ->
   let names := site_names (project_sites p) in
-  (forall n, In n names -> forallb name_char n = true) ->
-  (forall n, In n names -> kf_dup_name names n = false) ->
-  (forall n, In n names -> kf_ident_chars n = false) ->
   (forall n, In n names -> kf_collision names n = false) ->
   let ls := model_listeners (project_events p) in
-  map ml_event ls = names /\ NoDup (map ml_event ls) /\
+  map ml_event ls = first_names names /\ NoDup (map ml_event ls) /\
   (forall n, In n names -> exists x, In x ls /\ ml_event x = n /\ forall y, In y ls -> ml_event y = n -> y = x) /\
   (forall x, In x ls -> is_legal_binding_name (ml_ident x) = true) /\
   NoDup (map ml_ident ls) /\
@@ -97,16 +92,20 @@ Proof. exact no_sites_oracle. Qed.
 
 (* The recorded classes: each witness lies in the domain, in exactly that class, the oracle
    complains about the faithful model's output, and every complaint is accounted for by the class. *)
-Theorem C12_kf_dup_name_refuted : witness w_dup "kf_dup_name". Proof. exact witness_dup. Qed.
-Theorem C12_kf_ident_chars_refuted : witness w_ident "kf_ident_chars". Proof. exact witness_ident. Qed.
-Theorem C12_kf_collision_refuted : witness w_collide "kf_collision". Proof. exact witness_collide. Qed.
-Theorem C12_kf_tuple_payload_refuted : witness w_tuple "kf_tuple_payload". Proof. exact witness_tuple. Qed.
-Theorem C12_kf_path_payload_refuted : witness w_path "kf_path_payload". Proof. exact witness_path. Qed.
+Theorem C12_kf_collision_refuted : witness w_collide "kf_collision" /\ witness w_collide2 "kf_collision".
+Proof. exact (conj witness_collide witness_collide2). Qed.
 Theorem C12_kf_name_fallback_refuted : witness w_name "kf_name_fallback". Proof. exact witness_name. Qed.
 Theorem C12_kf_last_segment_refuted : witness w_lastseg "kf_last_segment". Proof. exact witness_lastseg. Qed.
 Theorem C12_kf_ctor_guess_refuted : witness w_ctor "kf_ctor_guess". Proof. exact witness_ctor. Qed.
 Theorem C12_kf_scope_refuted : witness w_scope "kf_scope". Proof. exact witness_scope. Qed.
 Theorem C12_kf_no_command_refuted : witness w_nocmd "kf_no_command". Proof. exact witness_nocmd. Qed.
+(* The witnesses of the repaired defects (C12-dup, C12-ident, C12-tuple, C12-path) now satisfy the
+   property: in the domain, in no class, and the oracle accepts the model's files. *)
+Theorem C12_dup_repaired : repaired w_dup /\ repaired w_dup2. Proof. exact repaired_dup. Qed.
+Theorem C12_ident_repaired : repaired w_ident /\ listener_name (L "user:created/now") = L "onUserCreatedNow".
+Proof. exact repaired_ident. Qed.
+Theorem C12_tuple_repaired : repaired w_tuple. Proof. exact repaired_tuple. Qed.
+Theorem C12_path_repaired : repaired w_path. Proof. exact repaired_path. Qed.
 Theorem C12_refuted_without_classes : exists p, in_domain p = true /\ model_complaints p <> [].
 Proof. exact full_statement_needs_classes. Qed.
 
@@ -136,7 +135,7 @@ Example C12_ex_clean : in_domain clean_project = true /\ kf_project clean_projec
 Proof. vm_compute. repeat split; reflexivity. Qed.
 Example C12_ex_clean_premises :
   let names := site_names (project_sites clean_project) in
-  forallb (fun n => forallb name_char n && negb (kf_dup_name names n) && negb (kf_ident_chars n) && negb (kf_collision names n)) names = true /\
+  forallb (fun n => negb (kf_collision names n)) names = true /\
   forallb (fun s => negb (kf_payload s) && negb (degenerate (pcore s))) (project_sites clean_project) = true /\
   List.length names = 6.
 Proof. vm_compute. repeat split; reflexivity. Qed.
@@ -146,13 +145,13 @@ Proof.
   eapply EI_expr; [left; reflexivity|]. apply EA_try. apply EA_await. apply EA_here; try reflexivity.
 Qed.
 Example C12_ex_listeners_premises :
-  let l := [(L "user-updated", L "User"); (L "tick", L "i32"); (L "Job_9", L "unknown")] in
+  let l := [(L "user-updated", L "User"); (L "tick", L "i32"); (L "ns:job/9", L "unknown"); (L "tick", L "String")] in
   let names := map fst l in
-  (forall n, In n names -> forallb name_char n = true) /\ (forall n, In n names -> kf_dup_name names n = false) /\
-  (forall n, In n names -> kf_ident_chars n = false) /\ (forall n, In n names -> kf_collision names n = false) /\
-  map ml_ident (model_listeners l) = [L "onUserUpdated"; L "onTick"; L "onJob9"].
+  (forall n, In n names -> kf_collision names n = false) /\
+  map ml_ident (model_listeners l) = [L "onUserUpdated"; L "onTick"; L "onNsJob9"] /\
+  map ml_payload (model_listeners l) = [L "types.User"; L "number"; L "unknown"].
 Proof.
-  cbv zeta. repeat split; try (intros n [<-|[<-|[<-|[]]]]; vm_compute; reflexivity).
+  cbv zeta. repeat split; try (intros n [<-|[<-|[<-|[<-|[]]]]]; vm_compute; reflexivity).
 Qed.
 Example C12_ex_payload : agree_on [(L "x", KEv (T1 "Vec" (T0 "User")))] [(L "x", L "Vec")] /\
   evident_type (XRef (M0 (V "x") "clone")) [(L "x", KEv (T1 "Vec" (T0 "User")))] = Some (T1 "Vec" (T0 "User")).
@@ -162,7 +161,7 @@ Proof.
 Qed.
 Example C12_ex_no_events : project_events (mk1 [SExpr (M0 (emit (V "other") "x" (XLit LInt)) "ok")] true) = [].
 Proof. vm_compute. reflexivity. Qed.
-Example C12_ex_ident : forallb safe_char (L "download-progress_2") = true /\ listener_name (L "download-progress_2") = L "onDownloadProgress2".
+Example C12_ex_ident : listener_name (L "download-progress_2") = L "onDownloadProgress2" /\ listener_name (L "a.b c") = L "onABC".
 Proof. vm_compute. split; reflexivity. Qed.
 
 Print Assumptions C12_walker_complete.
@@ -176,14 +175,14 @@ Print Assumptions C12_listeners_partial.
 Print Assumptions C12_no_events_no_file.
 Print Assumptions C12_events_file_written.
 Print Assumptions C12_no_sites_oracle.
-Print Assumptions C12_kf_dup_name_refuted.
-Print Assumptions C12_kf_ident_chars_refuted.
 Print Assumptions C12_kf_collision_refuted.
-Print Assumptions C12_kf_tuple_payload_refuted.
-Print Assumptions C12_kf_path_payload_refuted.
 Print Assumptions C12_kf_name_fallback_refuted.
 Print Assumptions C12_kf_last_segment_refuted.
 Print Assumptions C12_kf_ctor_guess_refuted.
 Print Assumptions C12_kf_scope_refuted.
 Print Assumptions C12_kf_no_command_refuted.
+Print Assumptions C12_dup_repaired.
+Print Assumptions C12_ident_repaired.
+Print Assumptions C12_tuple_repaired.
+Print Assumptions C12_path_repaired.
 Print Assumptions C12_refuted_without_classes.
